@@ -380,7 +380,7 @@ CHECKS = {
             rapid("TestC09_CouchbaseGroup", 1, 1, 2, 8),
             rapid("TestC09_StreamFollowsMembership", 200, 6000, 8, 16),
             rapid("TestC09_FollowerTakesAssignments", 200, 10000, 4, 16),
-        ],
+            rapid("TestC09_StaticConfigSources", 300, 6000, 1, 4)],
         min_share=dict(any={"renumbered_same_group_size": ["discovery_histories", 0.2]}),
     ),
 }
